@@ -180,6 +180,10 @@ def handlers : List (String × Handler) := [
     pure (exceptToJson (fun (l : List (Option Int × Int × Int × Int × Rat × Rat × Rat)) => Json.arr (l.map (fun p =>
       Json.arr #[(match p.1 with | some c => (c : Json) | none => Json.null), (p.2.1 : Json), (p.2.2.1 : Json), (p.2.2.2.1 : Json),
         ratToJson p.2.2.2.2.1, ratToJson p.2.2.2.2.2.1, ratToJson p.2.2.2.2.2.2])).toArray) r)),
+  ("framePosition", fun j => do
+    let r := framePosition (← getOptChannels j "channels") (← getInt j "planes") (← getInt j "tr") (← getInt j "tc")
+      (← getInt j "R") (← getInt j "C") (← getGeo j "geo") (← getRat j "sbs") (← getInt j "k")
+    pure (exceptToJson (fun (p : Rat × Rat × Rat) => Json.arr #[ratToJson p.1, ratToJson p.2.1, ratToJson p.2.2]) r)),
   ("planePositionTiledFull", fun j => do
     let z3d : Option (Int × Rat) ← (do
       match ← getOptInt j "slice_index" with
